@@ -7,8 +7,7 @@ PROPERTY = dict(
     stubs='Rule::{createTask,isResultValid,updateStatus}, BuildEngineDelegate callbacks, Task callbacks; per obligation: scanRule/demandRule/getRuleInfoForKey contract stubs',
     assumptions=['Inv(i): computedAt <= builtAt <= currentEpoch for every stored result'],
 )
-ENG = dict(models=['engine'], tus=['lib/Basic/Tracing.cpp'], assert_external=['BuildEngineTrace'],   # tracing is off (trace == nullptr): a trace call is an encoding error
-            native_tus=['lib/llvm/Support/StringMap.cpp', 'lib/Core/BuildEngineTrace.cpp', 'lib/llvm/Support/SmallVector.cpp'], cxxflags=['-I/repo/lib/Core', '-I/verif/harness/engine'], noop_virtual=['HTaskD[012]Ev$'])
+from _engine_common import ENG, EXEC_STUBS
 OBLIGATIONS = [
     dict(ENG, name='O1.scanRule', harness='engine/h_scan.cpp', entry='harness_scanRule', noinline=['BuildEngineImpl8scanRule'], expect_functions=['BuildEngineImpl8scanRule'],
          unwind=6, params_quick=[{'VF_NDEPS': n} for n in (0, 1, 2)], params_thorough=[{'VF_NDEPS': n} for n in (0, 1, 2, 3)]),
@@ -20,4 +19,10 @@ OBLIGATIONS = [
          expect_functions=['BuildEngineImpl22processRuleScanRequest'], unwind=6, params_quick=[{}]),
     dict(ENG, name='O3.demandRule', harness='engine/h_demand.cpp', entry='harness_demand', noinline=['BuildEngineImpl10demandRule'], expect_functions=['BuildEngineImpl10demandRule'], unwind=6, params_quick=[{}]),
     dict(ENG, name='O7.taskIsComplete', harness='engine/h_complete.cpp', entry='harness_complete', noinline=['BuildEngineImpl14taskIsComplete'], expect_functions=['BuildEngineImpl14taskIsComplete'], unwind=6, params_quick=[{}]),
+    dict(ENG, name='O456.executeTasks-pass', harness='engine/h_exec.cpp', entry='harness_exec',
+         noinline=['BuildEngineImpl12executeTasks', 'BuildEngineImpl14taskIsComplete'], expect_functions=['BuildEngineImpl12executeTasks', 'BuildEngineImpl14taskIsComplete'],
+         stubs=EXEC_STUBS, unwind=4, params_quick=[{'VF_INJECT_AT': -1}, {'VF_INJECT_AT': -1, 'VF_READY_ONLY': 1}], timeout=600),
+    dict(ENG, name='O6.finished-pass', harness='engine/h_finish.cpp', entry='harness_finish',
+         noinline=['BuildEngineImpl12executeTasks', 'BuildEngineImpl14taskIsComplete'], expect_functions=['BuildEngineImpl12executeTasks'],
+         stubs=EXEC_STUBS + ['BuildEngineImpl22processRuleScanRequestENS0_15RuleScanRequestE$=stub_processRuleScanRequest'], unwind=4, params_quick=[{'VF_PART': 0}, {'VF_PART': 2}], timeout=900, cbmc_flags=['--object-bits', '10']),
 ]
